@@ -361,9 +361,61 @@ def clause7_one_of(ctx, P):
     ctx.floor("C02.7 R-ORDER", 2)
 
 
+def clause8_failure_class(ctx, P, cg):
+    """a caller that tests a status for one exact failure value recognises every failure value the callee can produce"""
+    from ..core.retconst import ret_consts
+    summ = ret_consts(P, cg)
+    n = 0
+    for f in P.own_functions():
+        for i in f.all_insts():
+            if i.op != "icmp" or i.pred not in ("eq", "ne"):
+                continue
+            c = P.const_int(i.a[1])
+            o = P.strip(f, i.a[0])
+            if c is None or c >= 0 or not isinstance(o, int) or o < f.nparams:
+                continue
+            # through phis of one call result
+            try:
+                lv, _ = Q.leaves(P, f, o, through_loads=False)
+            except AnalysisBroken:
+                continue
+            calls = [f.insts[l[3]] for l in lv if l[0] in ("call", "icall") and l[3] in f.insts]
+            others = set()
+            own_callee = False
+            for ci in calls:
+                for t in cg.targets(f, ci):
+                    g = P.functions.get(t)
+                    if g is not None and P.own(g):
+                        own_callee = True
+                        others |= {x for x in summ.get(t, set()) if x < 0 and x != c}
+            if not own_callee:
+                continue
+            # the same status is also put through a sign test in this function: the exact comparison singles one value out of
+            # the failure class, it does not define the class
+            signed = False
+            ids = {ci.id for ci in calls}
+            for j in f.all_insts():
+                if j.op == "icmp" and j.pred in ("slt", "sle", "sgt", "sge") and P.const_int(j.a[1]) in (0, -1):
+                    try:
+                        lv2, _ = Q.leaves(P, f, j.a[0], through_loads=False)
+                    except AnalysisBroken:
+                        continue
+                    if ids & {l[3] for l in lv2 if l[0] in ("call", "icall")}:
+                        signed = True
+            if signed:
+                continue
+            n += 1
+            ctx.ob("C02.8 R-RET", f, Q.ordinal_site(f, i, P) + ":failure-class-recognised", not others,
+                   "a status is compared with exactly %d, but the callee can also fail with %s: that failure is taken for success "
+                   "(e.g. a batch goes on after a request whose answer could not be queued, with the connection left open)" % (c, sorted(others)))
+    if n < 1:
+        raise AnalysisBroken("no exact-failure-value comparison on an own function's status found (expected parse_json_array)")
+
+
 def run(ctx):
     for cfg in ctx.configs(["default"] if ctx.tier == "quick" else None):
         P, cg = cfg.P, cfg.cg
+        clause8_failure_class(ctx, P, cg)
         clause1_overwrite(ctx, P, cg)
         clause1_dispatch(ctx, P, cg)
         clause2_noid(ctx, P)
